@@ -45,10 +45,12 @@ def inject (n : Nat) (ds : List Diag) : Option (List (Nat × List Nat)) :=
 
 /-! ### the caret row -/
 
-/-- `disablePoints[i]`: an earlier diagnostic has the same (unclamped) column range -/
+/-- `disablePoints[i]`: an earlier diagnostic has the same (unclamped) column range of the same positions
+(fix ce2f37c: the positions were not compared, and a diagnostic about another field with equal offsets lost its carets) -/
 def pointsDisabled (ds : List Diag) (i : Nat) : Bool :=
   (List.range i).any fun j =>
-    (ds.getD j default).firstCol == (ds.getD i default).firstCol && (ds.getD j default).lastCol == (ds.getD i default).lastCol
+    (ds.getD j default).firstCol == (ds.getD i default).firstCol && (ds.getD j default).lastCol == (ds.getD i default).lastCol &&
+    (ds.getD j default).pos == (ds.getD i default).pos
 
 def insideAt (dps : List PR) (l c : Nat) : Bool := dps.any fun p => p.line == l && p.first ≤ c && c ≤ p.last
 def beforeAt (dps : List PR) (l c : Nat) : Bool := dps.any fun p => p.line == l && c < p.first
